@@ -130,11 +130,15 @@ pub fn run(tier: &str) -> i32 {
     rep.rule(&format!("stateless exploration of I/O schedules on the real code: every call on the controlled stream (read/write/seek/flush and their poll_* twins, poll_close) is a choice point; default = complete transfer/Ready; deviations = short transfer of 1, len/2 or len-1 bytes, or Pending once/twice (async). (a) iterative bounding: all executions with <= b deviations, b the largest value <= {bound} whose execution count fits the budget (>= 1 even for the 7.7k-call leaf-spill writers; see scenarios_explored_to_bound_*); (b) tiny directories: every transfer size at every call with unbounded deviations (all compositions); (c) uniform schedules 'every call moves <= c bytes' for c=1..{} with and without 'every poll Pending first'. Oracle: result and (for writers) stream image and final position identical to the 0-deviation execution, which is the in-memory result. non-trivial = executions with >= 1 deviation", if thorough { 32 } else { 9 }));
     rep.assume("controlled stream: seekable in-memory device, reads/writes may be short (>=1 byte) or pending; it stays writable after poll_close (the library closes the shared output after each compressed section); Interrupted/WouldBlock errors are not short transfers and are not explored");
     let scs = scenarios(true);
-    let mut total_exec = 0u64;
-    let mut total_points = 0u64;
-    let mut writes_after_close = 0u64;
-    // scenarios are explored one after another; each exploration is parallel inside
-    for sc in scs.iter() {
+    use std::sync::atomic::{AtomicU64, Ordering};
+    let total_exec_a = AtomicU64::new(0);
+    let total_points_a = AtomicU64::new(0);
+    let writes_after_close_a = AtomicU64::new(0);
+    // scenarios are explored in parallel, and each exploration is parallel inside (work stealing)
+    scs.par_iter().for_each(|sc| {
+        let mut total_exec = 0u64;
+        let mut total_points = 0u64;
+        let mut writes_after_close = 0u64;
         let runf = |d: &Dev| run_scripted(sc, d, false);
         let j = judge(sc.role);
         // baseline must succeed
@@ -162,7 +166,7 @@ pub fn run(tier: &str) -> i32 {
         writes_after_close += h.ops_after_close();
         if base.result.is_err() {
             rep.violation(format!("baseline-fails/{}", sc.name), format!("scenario fails on an unfragmented stream: {:?}", base.result), dev_json(&sc.name, &vec![], false));
-            continue;
+            return;
         }
         let t0 = std::time::Instant::now();
         let st = ex.explore();
@@ -220,7 +224,13 @@ pub fn run(tier: &str) -> i32 {
         for ((c, p), m) in fails {
             rep.violation(format!("uniform/{}", sc.name), format!("{m} when every call moves <= {c} bytes, pending_each={p}"), json!({"kind":"uniform","scenario":sc.name,"max":c.min(1 << 40),"pending_each":p}));
         }
-    }
+        total_exec_a.fetch_add(total_exec, Ordering::Relaxed);
+        total_points_a.fetch_add(total_points, Ordering::Relaxed);
+        writes_after_close_a.fetch_add(writes_after_close, Ordering::Relaxed);
+    });
+    let mut total_exec = total_exec_a.load(Ordering::Relaxed);
+    let total_points = total_points_a.load(Ordering::Relaxed);
+    let writes_after_close = writes_after_close_a.load(Ordering::Relaxed);
     // (b) all compositions on tiny directories: every transfer size at every call, unbounded deviations
     for (sc, image_len) in tiny_scenarios(if thorough { 21 } else { 17 }).iter() {
         let runf = |d: &Dev| run_scripted_p(sc, d, true, false);
